@@ -289,13 +289,12 @@ class BoundedGaussian(Gaussian):
             return super().prob(p)
 
     def sample(self, size=None):
-        val = super().sample(size)
-        out = True
-        while np.any(out):
+        val = np.array(super().sample(size), dtype=float, ndmin=1)
+        out = np.logical_or(val < self.lower_bound, val > self.upper_bound)
+        while out.any():
+            val[out] = super().sample(int(out.sum()))
             out = np.logical_or(val < self.lower_bound, val > self.upper_bound)
-            out = np.where(out)
-            val[out] = super().sample(len(out[0]))
-        return val
+        return val[0] if size is None else val
 
 
 class TransformedPrior(Prior):
